@@ -254,6 +254,7 @@ impl RR {
             }
             RData::Txt(b) => {
                 o.insert("x".into(), json!(hex(b)));
+                o.insert("txtd".into(), txt_decoded(b));
             }
             RData::Nsec { next, .. } => {
                 o.insert("t".into(), next.to_json());
@@ -262,6 +263,36 @@ impl RR {
         }
         v
     }
+}
+
+/// The harness's own reading of TXT RDATA (RFC 6763 6.3-6.4): length-prefixed
+/// strings, key up to the first '=', first occurrence of a key (compared
+/// case-insensitively) wins; stops at a zero length or a length that runs past
+/// the end; strings whose key is not UTF-8 are skipped.
+pub fn txt_decoded(b: &[u8]) -> Value {
+    let mut out: Vec<Value> = Vec::new();
+    let mut seen: Vec<String> = Vec::new();
+    let mut i = 0usize;
+    while i < b.len() {
+        let n = b[i] as usize;
+        if n == 0 || i + 1 + n > b.len() {
+            break;
+        }
+        let s = &b[i + 1..i + 1 + n];
+        i += 1 + n;
+        let (k, v) = match s.iter().position(|c| *c == b'=') {
+            Some(p) => (&s[..p], Some(&s[p + 1..])),
+            None => (s, None),
+        };
+        let Ok(ks) = std::str::from_utf8(k) else { continue };
+        let lk = ks.to_lowercase();
+        if seen.contains(&lk) {
+            continue;
+        }
+        seen.push(lk);
+        out.push(json!({"k": ks, "hv": v.is_some(), "v": hex(v.unwrap_or(&[]))}));
+    }
+    json!(out)
 }
 
 /// TTLs above 2^31-1 do not fit a TLC integer; they are clamped in the JSON
